@@ -230,6 +230,8 @@ def target_states(name: str):
     yield "emptydir", BYSTANDERS + [((t,), "d", "")], (t,)
     yield "dir-file", BYSTANDERS + [((t,), "d", ""), ((t, "child.txt"), "f", "child")], (t,)
     yield "dir-dir", BYSTANDERS + [((t,), "d", ""), ((t, "sub"), "d", "")], (t,)
+    # a folder whose only entries are hidden ones is not empty (round-2 seeded change C18-6: dot entries were skipped)
+    yield "dir-hidden", BYSTANDERS + [((t,), "d", ""), ((t, ".gitkeep"), "f", "")], (t,)
     yield "parent-file", BYSTANDERS + [(("pf",), "f", "iam-a-file")], ("pf", t)
     yield "grandparent-file", BYSTANDERS + [(("pf",), "f", "iam-a-file")], ("pf", "x", t)
     yield "file-in-subdir", BYSTANDERS + [(("sub",), "d", ""), (("sub", t), "f", "old-content"),
@@ -237,7 +239,7 @@ def target_states(name: str):
 
 
 def exists_state(state: str) -> bool:
-    return state in ("file", "dir-file", "dir-dir", "file-in-subdir")
+    return state in ("file", "dir-file", "dir-dir", "dir-hidden", "file-in-subdir")
 
 
 TARGET_NAMES = ["out.fk", "out.zz", "out", "out.", ".hidden", "out.yml", "a.b.fk"]
@@ -911,7 +913,7 @@ def stream_guarded(ck, scratch):
 # (b) result registry
 # ------------------------------------------------------------------------------------------------
 NAMES5 = ["a", "ab", "a_run", "a_run_b", "a.b"]
-NAMES7 = NAMES5 + ["a_run_0000", "a_b", "a_run_2024_b"]   # the last: a run specifier *inside* the name (seeded C18-1)
+NAMES7 = NAMES5 + ["a_run_0000", "a_b", "a_run_2024_b", "a[1]"]   # "a[1]": glob metacharacters are plain characters of a name (seeded C18-4)   # the last: a run specifier *inside* the name (seeded C18-1)
 UNIVERSE = NAMES7 + ["a_run_0001", "a_run_b_run_0000", "a.b_run_0000", "a_run_0000_run_0000", "zz", "a_run_00000", "a_run_000",
                      "_run_0000", "ab_run_0000", "a_run", "a_run_", "a_run_9999", "a_run_10000", "a_run_10000_run_0000"]
 
@@ -1284,6 +1286,8 @@ CORPUS_BUILTIN = [
     [("opt", "a"), ("opt", "a"), ("opt", "a_run_b"), ("opt", "a")],
     # dotted name (fixed): Path.stem cut "a.b_run_0000" at the dot
     [("opt", "a.b"), ("opt", "a.b"), ("opt", "a")],
+    # glob metacharacters in a result name: the runs of "a[1]" are found again
+    [("opt", "a[1]"), ("opt", "a[1]"), ("opt", "a"), ("opt", "a[1]")],
     # a name with a run specifier inside it is not stripped: latest of "a_run_2024_b" is not a run of "a_b"
     [("opt", "a_run_2024_b"), ("opt", "a_b"), ("opt", "a_b"), ("opt", "a_run_2024_b")],
     # latest lookup with a run specifier (fixed): the whole name was removed
